@@ -120,10 +120,15 @@ def main(rep, tier, only):
             u = fn["_unit"]
             t = ret_term(u, fn)
             ok = t is not None and re.match(pat, t)
+            why = "body is `%s`" % t
             if ok and nm in ("min", "max"):
-                calls = [q for (_, _, q) in L.calls_in(u, fn.get("body"))]
-                ok = any(q.startswith("std::") and q.endswith("::" + nm) for q in calls)
-            (rep.ok if ok else rep.fail)("DEL", "basic_pseudo::" + nm, F.primary_site(fn), F.describe(fn)[:160], **({"how": t} if ok else {"why": "body is `%s`" % t}))
+                # the static member must be the WRAPPED ENGINE's (the class template argument), not e.g. numeric_limits'
+                gen = F.strip_targs((fn.get("rec_targs") or ["?"])[0])
+                recs = [F.strip_targs(d.get("record") or "") for (_, d, q) in L.calls_in(u, fn.get("body")) if d is not None and q.endswith("::" + nm)]
+                ok = bool(recs) and all(r == gen for r in recs)
+                if not ok:
+                    why = "%s() is taken from %s, not from the wrapped engine %s: the distributions scale the engine's output with a wrong range" % (nm, recs, gen)
+            (rep.ok if ok else rep.fail)("DEL", "basic_pseudo::" + nm + "<" + (fn.get("rec_targs") or ["?"])[0].split("<")[0] + ">", F.primary_site(fn), F.describe(fn)[:160], **({"how": t} if ok else {"why": why}))
     # ---- PARAM
     specs = {
         "uniform_int": (("min_", "max_"), ("a", "b")),
